@@ -241,7 +241,21 @@ def sharing_scenarios(_=None):
   new.p['p']['cfg'] = new.q
   new.p['again'] = new.q
   run('config-alias-under-new-dict-keys', old, new)
-  return n, n, viols, [dict(scenario='sharing by identity')]
+  # callable swaps between callables taking **kwargs, with tags on named and on **kwargs arguments
+  # that are the same in old and new (no AddTag is emitted for them: they must simply survive)
+  def tagged(fn):
+    c = fdl.Config(fn, x=1, lr=0.1, mode='m')
+    fdl.add_tag(c, 'lr', pool.TagA)
+    fdl.add_tag(c, 'x', pool.TagB)
+    fdl.add_tag(c, 'mode', pool.TagA1)
+    return c
+  run('callable-swap-with-tagged-kwargs', tagged(pool.fk), tagged(pool.fk2))
+  old = fdl.Config(pool.fc, tagged(pool.fk), q=[tagged(pool.fk)])
+  new = copy.deepcopy(old)
+  fdl.update_callable(new.p, pool.fk2)
+  new.q[0].lr = 0.2
+  run('nested-callable-swap-with-tagged-kwargs', old, new)
+  return n, n, viols, [dict(scenario='sharing by identity; callable swaps with tagged **kwargs arguments')]
 
 
 def replay(case):
